@@ -108,7 +108,8 @@ func newStringAdditionalProperties(r schema.RuleASTNode) *AdditionalProperties {
 		return &AdditionalProperties{mode: additionalPropertiesObject}
 	}
 
-	if r.Value == internal.StringAny {
+	if r.Value == internal.StringAny || r.Value == internal.StringEnum || r.Value == "mixed" {
+		// "enum" and "mixed" without a list say nothing about the value: unconstrained, like "any".
 		return nil
 	}
 
